@@ -295,6 +295,9 @@ def run(ctx: C.Ctx):
     # ---- the kinds of Enum classes (`_missing_` hooks, Flag combinations, unhashable member values, aliases, mix-ins)
     from harness.props import c04_enum
     c04_enum.run(ctx, sys.modules[__name__], None)
+    # ---- one NamedTuple / TypedDict / dataclass type shared by classes of different engines, any order of set-up and use
+    from harness.props import c04_shared
+    c04_shared.run(ctx, sys.modules[__name__], None)
 
 
 def _nonjson(v):
